@@ -514,22 +514,62 @@ func parseCallToolResult(rawMessage *json.RawMessage) (*CallToolResult, error) {
 func parseContent(contentMap map[string]any) (Content, error) {
 	contentType := extractString(contentMap, "type")
 
+	var content Content
+	var err error
 	switch contentType {
 	case "text":
-		return parseTextContent(contentMap)
+		content, err = parseTextContent(contentMap)
 	case "image":
-		return parseImageContent(contentMap)
+		content, err = parseImageContent(contentMap)
+	case "audio":
+		content, err = parseAudioContent(contentMap)
 	case "resource":
-		return parseResourceContent(contentMap)
+		content, err = parseResourceContent(contentMap)
 	default:
 		return nil, fmt.Errorf("unsupported content type: %s", contentType)
 	}
+	if err != nil {
+		return nil, err
+	}
+	return withParsedAnnotations(content, contentMap), nil
+}
+
+// withParsedAnnotations copies the optional "annotations" member of a content item into the value.
+func withParsedAnnotations(content Content, contentMap map[string]any) Content {
+	raw, ok := contentMap["annotations"]
+	if !ok || raw == nil {
+		return content
+	}
+	data, err := json.Marshal(raw)
+	if err != nil {
+		return content
+	}
+	var annotated Annotated
+	if err := json.Unmarshal(data, &annotated.Annotations); err != nil || annotated.Annotations == nil {
+		return content
+	}
+	switch c := content.(type) {
+	case TextContent:
+		c.Annotated = annotated
+		return c
+	case ImageContent:
+		c.Annotated = annotated
+		return c
+	case AudioContent:
+		c.Annotated = annotated
+		return c
+	case EmbeddedResource:
+		c.Annotated = annotated
+		return c
+	}
+	return content
 }
 
 // parseTextContent parses text content
 func parseTextContent(contentMap map[string]any) (Content, error) {
-	text := extractString(contentMap, "text")
-	if text == "" {
+	// An empty string is a legitimate text; only an absent or non-string member is an error.
+	text, ok := contentMap["text"].(string)
+	if !ok {
 		return nil, fmt.Errorf("text is missing")
 	}
 	return NewTextContent(text), nil
@@ -546,6 +586,15 @@ func parseImageContent(contentMap map[string]any) (Content, error) {
 }
 
 // parseResourceContent parses resource content
+func parseAudioContent(contentMap map[string]any) (Content, error) {
+	data := extractString(contentMap, "data")
+	mimeType := extractString(contentMap, "mimeType")
+	if data == "" || mimeType == "" {
+		return nil, fmt.Errorf("audio data or mimeType is missing")
+	}
+	return NewAudioContent(data, mimeType), nil
+}
+
 func parseResourceContent(contentMap map[string]any) (Content, error) {
 	resourceMap := extractMap(contentMap, "resource")
 	if resourceMap == nil {
@@ -586,7 +635,8 @@ func parseResourceContents(contentMap map[string]any) (ResourceContents, error) 
 
 	mimeType := extractString(contentMap, "mimeType")
 
-	if text := extractString(contentMap, "text"); text != "" {
+	// A text resource may be empty: decide by the presence of the member, not by its length.
+	if text, ok := contentMap["text"].(string); ok {
 		return TextResourceContents{
 			URI:      uri,
 			MIMEType: mimeType,
